@@ -101,6 +101,10 @@ typedef struct of_2d_parity_cb
 	UINT16*		tab_nb_equ_for_repair;
 	
 		void** repair_symbols_values;
+	/** scratch table used by ML decoding.
+	 *  NB: the layout must remain identical to that of of_linear_binary_code_cb_t. */
+	void**		tmp_tab_symbols;
+	UINT16		nb_tmp_symbols;
 #endif /* } OF_USE_DECODER */
 
 	void 		**encoding_symbols_tab;
